@@ -101,7 +101,10 @@ impl fmt::Display for MolecularShape2 {
 
 impl MolecularShape2 {
     fn overlap_area(r: f64, d: f64) -> f64 {
-        r.powi(2) * f64::acos(d / r) - d * f64::sqrt(r.powi(2) - d.powi(2))
+        // The chord can lie beyond the circle, when one circle is inside the other, or by rounding
+        // when the circles just touch. The segment cut off is then empty, or the whole circle.
+        let ratio = f64::max(-1., f64::min(1., d / r));
+        r.powi(2) * f64::acos(ratio) - d * f64::sqrt(f64::max(0., r.powi(2) - d.powi(2)))
     }
 
     fn circle_overlap(a1: &Atom2, a2: &Atom2) -> f64 {
